@@ -11,6 +11,27 @@ never while an older message from the same sender is still pending.  The fees at
 ceil(relayer multiplier * elected gas) and ceil(community / security rate * that relayer fee)."
 
 Model: `PalomaModel/Model/Queue.lean`.
+
+What is stated where (clause → theorem):
+* who can be assigned: `pick_qualifies` / `pick_eligible` (what a successful pick returns), `qualifies_iff_eligible`
+  (the qualification predicate stated on the tables equals the model's filter), `pick_succeeds_iff`,
+  `rank_sorted`, `pick_in_top_pool`;
+* "every message that needs relaying is assigned to …" over whole histories: `item_origin` (every queued
+  message was created by a `put` or an `enqueue` of the history, with exactly its fields),
+  `queued_message_assignment` (enqueue-origin ⇒ the assignee qualified in the snapshot / tables of the
+  state the request ran in, and the relayer address is its first target-chain account there),
+  `every_message_assigned_by_pick` (histories without the keeper-level `put`: all messages).  SCOPE: the
+  keeper-level `put` (`PutMessageInQueue`) stores whatever assignee its caller passes; in /repo every
+  producer of a turnstone message calls `PickValidatorForMessage` first, which is `enqueue`;
+* "(whose address becomes the signed relayer address)": `picked_address_is_the_signed_relayer_address`;
+* "if no such validator exists the request fails without enqueuing anything":
+  `no_eligible_fails_without_enqueue`, `failed_request_enqueues_nothing`;
+* relay offering: `offered_iff` (exact), `never_ahead_of_older_valset_update`, `relay_answer_sound`,
+  `relay_never_ahead_of_valset_update_all_histories`, `one_per_sender_all_histories` (reachable states,
+  all kinds), `sender_only_on_fee_payers`, `sender_registered_before_assignee_test`;
+* fees: `fees_formula`, `fees_out_of_range_is_error`, `elected_fees_attached` (one message),
+  `elected_and_fees_written_only_by_endBlock`, `fees_provenance`, `attached_fees_are_ceil`,
+  `offered_fee_payer_carries_ceil_fees` (over whole histories).
 -/
 import PalomaModel.Model.Queue
 import PalomaModel.Props.C06
@@ -110,11 +131,38 @@ theorem insertScored_sorted (x : Scored) (l : List Scored) (h : l.Pairwise RankL
       · exact rankLe_of_not_before hb
       · exact hy z hz
 
-/-- a validator qualifies for a job: metrics and fee on record, in the snapshot with a first
-    target-chain account that carries the MEV trait when required -/
+/-- A validator qualifies for a job — stated directly on the tables, not through the model's filter
+    function: a metrics record and a relayer-fee record exist for it (a record with multiplier 0 IS a
+    record, see `zeroFee` below), and its (first) snapshot entry has a (first) account on the target
+    chain, which carries the MEV trait when the job demands it. -/
 def Qualifies (env : Env) (snap : Snap) (mev : Bool) (id : Nat) : Prop :=
-  (∃ v ∈ snap.vals, v.id = id) ∧ (assoc? env.metrics id).isSome ∧ (assoc? env.fees id).isSome ∧
-    eligible snap mev id = true
+  (assoc? env.metrics id).isSome ∧ (assoc? env.fees id).isSome ∧
+    ∃ v, snap.vals.find? (fun v => v.id == id) = some v ∧
+      ∃ a, chainAccount v.accounts = some a ∧ (mev = true → a.mev = true)
+
+/-- what `eligible` (`filterValidatorsForJob`) says, both directions -/
+theorem eligible_iff (snap : Snap) (mev : Bool) (id : Nat) :
+    eligible snap mev id = true ↔
+      ∃ v, snap.vals.find? (fun v => v.id == id) = some v ∧
+        ∃ a, chainAccount v.accounts = some a ∧ (mev = true → a.mev = true) := by
+  unfold eligible
+  constructor
+  · intro h
+    split at h
+    · cases h
+    · rename_i v hv
+      split at h
+      · cases h
+      · rename_i a ha
+        refine ⟨v, hv, a, ha, ?_⟩
+        intro hm
+        subst hm
+        simpa using h
+  · rintro ⟨v, hv, a, ha, hm⟩
+    simp only [hv, ha]
+    cases mev with
+    | false => rfl
+    | true => simp [hm rfl]
 
 theorem infoOf_id {env : Env} {v : SnapVal} {i : Info} (h : infoOf env v = some i) :
     i.id = v.id ∧ (assoc? env.metrics v.id).isSome ∧ (assoc? env.fees v.id).isSome := by
@@ -146,13 +194,16 @@ theorem mem_assignable {env : Env} {snap : Snap} {mev : Bool} {w : Scored} (h : 
   obtain ⟨v, hv, hiv⟩ := List.mem_filterMap.mp hi
   obtain ⟨hid, hm, hf⟩ := infoOf_id hiv
   have hw : w.id = v.id := by rw [← hs]; simp [scoreOf, hid]
-  refine ⟨⟨v, hv, hw.symm⟩, ?_, ?_, he⟩
+  refine ⟨?_, ?_, (eligible_iff snap mev w.id).mp (by simpa using he)⟩
   · rw [hw]; exact hm
   · rw [hw]; exact hf
 
 theorem assignable_of_qualifies {env : Env} {snap : Snap} {mev : Bool} {id : Nat}
     (h : Qualifies env snap mev id) : ∃ w ∈ assignable env snap mev, w.id = id := by
-  obtain ⟨⟨v, hv, hid⟩, hm, hf, he⟩ := h
+  obtain ⟨hm, hf, v, hfind, hacc⟩ := h
+  have he : eligible snap mev id = true := (eligible_iff snap mev id).mpr ⟨v, hfind, hacc⟩
+  have hv : v ∈ snap.vals := List.mem_of_find?_eq_some hfind
+  have hid : v.id = id := by simpa using List.find?_some hfind
   subst hid
   obtain ⟨i, hi, hii⟩ := infoOf_some_of_records hm hf
   have hmem : i ∈ buildInfos env snap := List.mem_filterMap.mpr ⟨v, hv, hi⟩
@@ -420,19 +471,69 @@ theorem pendingValset_oldest {q : List Item} (hs : q.Pairwise (fun a b => a.id <
         rw [List.find?_cons, hxb]
         exact hp
 
+/-! #### origin of queued messages -/
+
+/-- How a queued message came into being: an operation `o` of the history, run in the state `run pre`,
+handed out its id and stored it with exactly its kind, payload, assignee, relayer address and estimate
+flag (the sender is `senderOf kind sd`: only fee-paying actions have one) — either the keeper-level
+`put` with caller-chosen assignee, or an `enqueue` whose relayer pick in `run pre` returned the
+assignee and the relayer address. -/
+def Origin (ops : List Op) (id : Nat) (kind : Kind) (content sender assignee remote : Nat) (reqEst : Bool) : Prop :=
+  ∃ pre post o, ops = pre ++ o :: post ∧ id = (run pre).nextId + 1 ∧ ∃ sd, sender = senderOf kind sd ∧
+    (o = .put kind content sd assignee remote reqEst ∨
+      ∃ mev ts, o = .enqueue kind content sd mev ts ∧ pick (run pre).env mev ts = some (assignee, remote) ∧ reqEst = true)
+
+theorem origin_extend {ops : List Op} {id : Nat} {kind : Kind} {content sender assignee remote : Nat} {reqEst : Bool} (op : Op)
+    (h : Origin ops id kind content sender assignee remote reqEst) :
+    Origin (ops ++ [op]) id kind content sender assignee remote reqEst := by
+  obtain ⟨pre, post, o, he, hid, hrest⟩ := h
+  exact ⟨pre, post ++ [op], o, by rw [he]; simp, hid, hrest⟩
+
+/-- the provenance of elected estimate and fees of a queued message (see `fees_provenance`) -/
+def FeeProv (ops : List Op) (id : Nat) (kind : Kind) (assignee : Nat) (reqEst : Bool) (elected : Nat)
+    (fees : Option (Nat × Nat × Nat)) : Prop :=
+  (elected = 0 ∧ fees = none) ∨
+  (reqEst = true ∧ elected ≠ 0 ∧ ∃ pre post it0 snap, ops = pre ++ Op.endBlock :: post ∧
+      it0 ∈ (run pre).queue ∧ it0.id = id ∧ it0.elected = 0 ∧ (run pre).env.snapshot = some snap ∧
+      Paloma.Libcons.verifyGasEstimates (libSnap snap) it0.estimates = .elected elected ∧
+      ((kind.feePayer = true ∧ ∃ f, fees = some f ∧ feesFor (run pre).env assignee elected = some f) ∨
+       (kind.feePayer = false ∧ fees = none)))
+
+theorem feeProv_extend {ops : List Op} {id : Nat} {kind : Kind} {assignee : Nat} {reqEst : Bool} {elected : Nat}
+    {fees : Option (Nat × Nat × Nat)} (op : Op) (h : FeeProv ops id kind assignee reqEst elected fees) :
+    FeeProv (ops ++ [op]) id kind assignee reqEst elected fees := by
+  rcases h with h | ⟨h1, h2, pre, post, it0, snap, he, hrest⟩
+  · exact Or.inl h
+  · exact Or.inr ⟨h1, h2, pre, post ++ [op], it0, snap, by rw [he]; simp, hrest⟩
+
+theorem feesFor_spec {env : Env} {a g : Nat} {f : Nat × Nat × Nat} (h : feesFor env a g = some f) :
+    ∃ m, assoc? env.fees a = some m ∧ m ≠ 0 ∧ env.community ≠ 0 ∧ env.security ≠ 0 ∧
+      calcFees m env.community env.security g = some f := by
+  unfold feesFor at h
+  split at h
+  · cases h
+  · rename_i m hm
+    split at h
+    · cases h
+    · rename_i hm0
+      split at h
+      · cases h
+      · rename_i hcs
+        simp only [Bool.or_eq_true, beq_iff_eq, not_or] at hcs
+        exact ⟨m, hm, by simpa using hm0, hcs.1, hcs.2, h⟩
+
 end Lemmas
 
 /-! ## Property theorems -/
 
-/-- **pick_eligible** (clause 1: who can be assigned).  A successful pick returns a validator `v`
-that is in the current snapshot, whose first account on the target chain `a` provides the relayer
-address, carries the MEV trait if the job demands it, and `v` has a relayer fee and metrics on
-record.  (`remote_addr_is_snapshot_addr` is the `a.addr = r` conjunct.) -/
-theorem pick_eligible (env : Env) (mev : Bool) (ts v r : Nat) (h : pick env mev ts = some (v, r)) :
-    ∃ snap, env.snapshot = some snap ∧
-      ∃ sv ∈ snap.vals, sv.id = v ∧
-        ∃ a ∈ sv.accounts, a.chain = targetChain ∧ a.addr = r ∧ (mev = true → a.mev = true) ∧
-          (assoc? env.fees v).isSome ∧ (assoc? env.metrics v).isSome := by
+/-- **pick_qualifies** (clause 1: who can be assigned).  A successful pick returns a validator `v`
+that qualifies in the current snapshot and tables (`Qualifies`: metrics record, fee record, first
+snapshot entry with a first target-chain account carrying the MEV trait when demanded), and the
+relayer address `r` it returns is the address of exactly that account. -/
+theorem pick_qualifies (env : Env) (mev : Bool) (ts v r : Nat) (h : pick env mev ts = some (v, r)) :
+    ∃ snap, env.snapshot = some snap ∧ Qualifies env snap mev v ∧
+      ∃ sv, snap.vals.find? (fun x => x.id == v) = some sv ∧
+        ∃ a, chainAccount sv.accounts = some a ∧ a.addr = r ∧ (mev = true → a.mev = true) := by
   unfold pick at h
   split at h
   · cases h
@@ -445,8 +546,7 @@ theorem pick_eligible (env : Env) (mev : Bool) (ts v r : Nat) (h : pick env mev 
         · cases h
         · rename_i w hw
           have hq := mem_assignable (List.mem_of_getElem? hw)
-          obtain ⟨_, hm, hf, he⟩ := hq
-          obtain ⟨sv, hsv, a, ha, hmev⟩ := eligible_spec he
+          obtain ⟨hm, hf, sv, hsv, a, ha, hmev⟩ := hq
           split at h
           · cases h
           · rename_i sv' hsv'
@@ -461,11 +561,29 @@ theorem pick_eligible (env : Env) (mev : Bool) (ts v r : Nat) (h : pick env mev 
               subst ha'
               injection h with h
               injection h with h1 h2
-              obtain ⟨hamem, hchain⟩ := chainAccount_spec ha
-              have hid : sv.id = w.id := by simpa using List.find?_some hsv
-              refine ⟨snap, hsnap, sv, List.mem_of_find?_eq_some hsv, by rw [hid, h1], a, hamem, hchain, h2, hmev, ?_, ?_⟩
-              · rw [← h1]; exact hf
-              · rw [← h1]; exact hm
+              subst h1
+              exact ⟨snap, hsnap, ⟨hm, hf, sv, hsv, a, ha, hmev⟩, sv, hsv, a, ha, h2, hmev⟩
+
+/-- **pick_eligible** (clause 1, spelled out).  A successful pick returns a validator `v`
+that is in the current snapshot, whose first account on the target chain `a` provides the relayer
+address, carries the MEV trait if the job demands it, and `v` has a relayer fee and metrics on
+record.  (`remote_addr_is_snapshot_addr` is the `a.addr = r` conjunct.) -/
+theorem pick_eligible (env : Env) (mev : Bool) (ts v r : Nat) (h : pick env mev ts = some (v, r)) :
+    ∃ snap, env.snapshot = some snap ∧
+      ∃ sv ∈ snap.vals, sv.id = v ∧
+        ∃ a ∈ sv.accounts, a.chain = targetChain ∧ a.addr = r ∧ (mev = true → a.mev = true) ∧
+          (assoc? env.fees v).isSome ∧ (assoc? env.metrics v).isSome := by
+  obtain ⟨snap, hsnap, ⟨hm, hf, _⟩, sv, hsv, a, ha, hr, hmev⟩ := pick_qualifies env mev ts v r h
+  obtain ⟨hamem, hchain⟩ := chainAccount_spec ha
+  exact ⟨snap, hsnap, sv, List.mem_of_find?_eq_some hsv, by simpa using List.find?_some hsv, a, hamem, hchain, hr, hmev, hf, hm⟩
+
+/-- **qualifies_iff_eligible.** `Qualifies` (stated on the tables) is exactly: both records exist and the
+code's job filter `filterValidatorsForJob` lets the validator through. -/
+theorem qualifies_iff_eligible (env : Env) (snap : Snap) (mev : Bool) (id : Nat) :
+    Qualifies env snap mev id ↔
+      (assoc? env.metrics id).isSome ∧ (assoc? env.fees id).isSome ∧ eligible snap mev id = true := by
+  unfold Qualifies
+  rw [eligible_iff]
 
 /-- **rank_sorted.** The ranked list is sorted by score (descending) with ties broken by address
 (ascending) and is a rearrangement of its input — the order `slices.SortStableFunc` produces. -/
@@ -544,7 +662,7 @@ theorem pick_succeeds_iff (env : Env) (snap : Snap) (mev : Bool) (ts : Nat) (hs 
     simp only [h1, h2, Bool.false_eq_true, if_false]
     rw [List.getElem?_eq_getElem hidx]
     have hq' := mem_assignable (List.getElem_mem hidx)
-    obtain ⟨sv, hsv, a, ha, _⟩ := eligible_spec hq'.2.2.2
+    obtain ⟨_, _, sv, hsv, a, ha, _⟩ := hq'
     simp [hsv, ha]
 
 /-- **no_eligible_fails_without_enqueue.** If no validator qualifies, the enqueue request fails and
@@ -578,7 +696,7 @@ theorem enqueue_assigns_pick (s : State) (kind : Kind) (content sender : Nat) (m
     (h : (enqueue s kind content sender mev ts).2 = some (id, v, r)) :
     pick s.env mev ts = some (v, r) ∧
       (enqueue s kind content sender mev ts).1.queue =
-        s.queue ++ [{ id := id, kind := kind, content := content, sender := sender, assignee := v, remote := r, reqEst := true }] := by
+        s.queue ++ [newItem id kind content sender v r true] := by
   cases hp : pick s.env mev ts with
   | none => simp [enqueue, hp] at h
   | some vr =>
@@ -789,6 +907,267 @@ theorem elected_fees_attached (env : Env) (snap : Snap) (it : Item) (hk : it.kin
                   refine ⟨g, m, f, rfl, rfl, ?_, hcf, rfl⟩
                   simpa using hm0
 
+/-! ### over whole histories: assignment, signed relayer address, per-sender rule, fees -/
+
+/-- **item_origin** (clause 1 over histories, scope).  Every message in the queue after ANY history was
+created by an operation of that history — a keeper-level `put` or an `enqueue` — which ran when
+the id counter stood at `it.id - 1` and carried exactly the message's kind, payload, assignee, relayer
+address and estimate flag.  For an `enqueue`, assignee and relayer address are what the relayer pick
+returned in the state the request ran in.  No other operation creates a message, and none ever rewrites
+these fields (`core_fields_never_change`). -/
+theorem item_origin (ops : List Op) :
+    ∀ it ∈ (run ops).queue, Origin ops it.id it.kind it.content it.sender it.assignee it.remote it.reqEst := by
+  induction ops using snoc_induction with
+  | h0 => intro it hit; simp [run] at hit
+  | hs ops op ih =>
+    intro it' hit'
+    rw [run_snoc] at hit'
+    rcases step_new (run ops) op it' hit' with ⟨it, hit, hid⟩ | ⟨hid, sd, hnew, horig⟩
+    · obtain ⟨h1, h2, h3, h4, h5, h6, h7⟩ :=
+        step_core (step_full (run ops) (invariant_all_histories ops) op it it' hit hit' hid.symm)
+      rw [h1, h2, h3, h4, h5, h6, h7]
+      exact origin_extend op (ih it hit)
+    · refine ⟨ops, [], op, rfl, hid, sd, ?_, horig⟩
+      rw [hnew]; rfl
+
+/-- **queued_message_assignment** ("every message that needs relaying is assigned to a validator that is in
+the current snapshot, has an account on the target chain, has a relayer fee and performance metrics on
+record, and carries the MEV trait when the job demands it" — over whole histories).  For every message in
+the queue after ANY history, either
+
+* it entered through the keeper-level `put` (assignee chosen by the caller — in /repo no producer of a
+  relayed message does that without calling the pick first), or
+* it entered through an `enqueue … mev ts` of the history, and in the state `run pre` that request ran in
+  there was a snapshot `snap` in which the assignee `Qualifies` for the job (metrics record, fee record,
+  first snapshot entry `sv`, first target-chain account `a`, MEV trait if `mev`), the relayer address of
+  the message is `a.addr`, and gas estimation is required. -/
+theorem queued_message_assignment (ops : List Op) :
+    ∀ it ∈ (run ops).queue,
+      (∃ pre post sd, ops = pre ++ Op.put it.kind it.content sd it.assignee it.remote it.reqEst :: post ∧
+          it.id = (run pre).nextId + 1) ∨
+      (∃ pre post sd mev ts snap, ops = pre ++ Op.enqueue it.kind it.content sd mev ts :: post ∧
+          it.id = (run pre).nextId + 1 ∧ it.reqEst = true ∧
+          (run pre).env.snapshot = some snap ∧ Qualifies (run pre).env snap mev it.assignee ∧
+          ∃ sv, snap.vals.find? (fun x => x.id == it.assignee) = some sv ∧
+            ∃ a, chainAccount sv.accounts = some a ∧ a.chain = targetChain ∧ a.addr = it.remote ∧
+              (mev = true → a.mev = true)) := by
+  intro it hit
+  obtain ⟨pre, post, o, he, hid, sd, _, ho | ⟨mev, ts, ho, hp, hreq⟩⟩ := item_origin ops it hit
+  · exact Or.inl ⟨pre, post, sd, by rw [he, ho], hid⟩
+  · obtain ⟨snap, hsnap, hq, sv, hsv, a, ha, hr, hmev⟩ := pick_qualifies _ mev ts _ _ hp
+    exact Or.inr ⟨pre, post, sd, mev, ts, snap, by rw [he, ho], hid, hreq, hsnap, hq, sv, hsv, a, ha,
+      (chainAccount_spec ha).2, hr, hmev⟩
+
+/-- **every_message_assigned_by_pick.** In a history that never uses the keeper-level `put` — i.e. every
+message enters the way /repo's producers enqueue it, through the relayer pick — EVERY queued message is
+assigned to a validator that qualified when the message was enqueued, with that validator's target-chain
+account as relayer address. -/
+theorem every_message_assigned_by_pick (ops : List Op)
+    (hnoput : ∀ o ∈ ops, ∀ k c sd a r q, o ≠ Op.put k c sd a r q) :
+    ∀ it ∈ (run ops).queue,
+      ∃ pre post sd mev ts snap, ops = pre ++ Op.enqueue it.kind it.content sd mev ts :: post ∧
+        it.reqEst = true ∧ (run pre).env.snapshot = some snap ∧ Qualifies (run pre).env snap mev it.assignee ∧
+        ∃ sv, snap.vals.find? (fun x => x.id == it.assignee) = some sv ∧
+          ∃ a, chainAccount sv.accounts = some a ∧ a.addr = it.remote := by
+  intro it hit
+  rcases queued_message_assignment ops it hit with ⟨pre, post, sd, he, _⟩ |
+      ⟨pre, post, sd, mev, ts, snap, he, _, hreq, hsnap, hq, sv, hsv, a, ha, _, hr, _⟩
+  · exfalso
+    exact hnoput (Op.put it.kind it.content sd it.assignee it.remote it.reqEst) (by rw [he]; simp) _ _ _ _ _ _ rfl
+  · exact ⟨pre, post, sd, mev, ts, snap, he, hreq, hsnap, hq, sv, hsv, a, ha, hr⟩
+
+
+
+/-- **picked_address_is_the_signed_relayer_address** ("whose address becomes the signed relayer
+address").  In every reachable state the relayer component of a message's signing bytes is the eth account
+denoted by its stored relayer address, and so is the relayer component of what EVERY stored signature
+was made for; and for a message that entered through `enqueue` that account is the one denoted by the
+address of the target-chain account `a` which the picked validator had in the snapshot at that point
+of the history.  (The address never changes afterwards: `core_fields_never_change`.) -/
+theorem picked_address_is_the_signed_relayer_address (ops : List Op) :
+    ∀ it ∈ (run ops).queue,
+      (bytesOf it).remote = canon it.remote ∧ (∀ sg ∈ it.sigs, sg.for_.remote = canon it.remote) ∧
+      ((∃ pre post sd, ops = pre ++ Op.put it.kind it.content sd it.assignee it.remote it.reqEst :: post ∧
+          it.id = (run pre).nextId + 1) ∨
+       (∃ pre post sd mev ts snap sv a, ops = pre ++ Op.enqueue it.kind it.content sd mev ts :: post ∧
+          it.id = (run pre).nextId + 1 ∧ (run pre).env.snapshot = some snap ∧
+          snap.vals.find? (fun x => x.id == it.assignee) = some sv ∧ chainAccount sv.accounts = some a ∧
+          (bytesOf it).remote = canon a.addr ∧ ∀ sg ∈ it.sigs, sg.for_.remote = canon a.addr)) := by
+  intro it hit
+  have hsig : ∀ sg ∈ it.sigs, sg.for_.remote = canon it.remote := by
+    intro sg hsg
+    rw [(stored_signatures_verify ops it hit sg hsg).1, bytesOf_remote]
+  refine ⟨bytesOf_remote it, hsig, ?_⟩
+  rcases queued_message_assignment ops it hit with h |
+      ⟨pre, post, sd, mev, ts, snap, he, hid, _, hsnap, _, sv, hsv, a, ha, _, hr, _⟩
+  · exact Or.inl h
+  · refine Or.inr ⟨pre, post, sd, mev, ts, snap, sv, a, he, hid, hsnap, hsv, ha, ?_, ?_⟩
+    · rw [bytesOf_remote, hr]
+    · intro sg hsg; rw [hsig sg hsg, hr]
+
+/-- **sender_only_on_fee_payers.** In every reachable state only fee-paying messages (SubmitLogicCall,
+UploadUserSmartContract — the actions that have a `SenderAddress`) carry a non-empty sender. -/
+theorem sender_only_on_fee_payers (ops : List Op) :
+    ∀ it ∈ (run ops).queue, it.sender ≠ 0 → it.kind.feePayer = true := by
+  intro it hit hs
+  obtain ⟨_, _, _, _, _, sd, hsd, _⟩ := item_origin ops it hit
+  unfold senderOf at hsd
+  split at hsd
+  · assumption
+  · exact absurd hsd hs
+
+/-- **one_per_sender_all_histories** (clause 2, "never while an older message from the same sender is still
+pending" — reachable states, every kind of message, no side condition on filters).  In the state reached
+by ANY history: if the queue holds an older message `j` of the same non-empty sender as `it` and `j` has
+neither a delivery nor an error report, then `it` is offered to NO validator — whoever `j` is assigned
+to and whether or not `j`'s estimate is elected. -/
+theorem one_per_sender_all_histories (ops : List Op) (v : Nat) (j it : Item)
+    (hj : j ∈ (run ops).queue) (hit : it ∈ (run ops).queue) (hlt : j.id < it.id)
+    (hp : j.pub = false) (he : j.err = false) (hs : it.sender ≠ 0) (heq : j.sender = it.sender) :
+    it.id ∉ offered (run ops).queue v ∧ it.id ∉ offeredPage (run ops).queue v := by
+  have hik : it.kind.feePayer = true := sender_only_on_fee_payers ops it hit hs
+  have hjk : j.kind.feePayer = true := sender_only_on_fee_payers ops j hj (by rw [heq]; exact hs)
+  have main : it.id ∉ offered (run ops).queue v := by
+    intro h
+    have hinv := invariant_all_histories ops
+    obtain ⟨pre, it', post, hq, hid, hpend, _, _, _, _, hsnd⟩ := (offered_iff _ v it.id).mp h
+    have hsorted := hinv.2.2.1
+    have hit'mem : it' ∈ (run ops).queue := by rw [hq]; simp
+    have e : it' = it := uniq_id hinv.2.2 hit'mem hit hid
+    subst e
+    rw [hq] at hsorted hj
+    have hjpre : j ∈ pre := by
+      rcases List.mem_append.mp hj with h1 | h1
+      · exact h1
+      · rcases List.mem_cons.mp h1 with h2 | h2
+        · subst h2; omega
+        · have := (List.pairwise_cons.mp (List.pairwise_append.mp hsorted).2.1).1 j h2; omega
+    refine hsnd hik hs j hjpre ?_ hjk heq
+    unfold pass1
+    cases hpv : pendingValset (run ops).queue with
+    | none => simp [hp, he]
+    | some p => rw [hpv] at hpend; simp only at hpend; simp [hp, he]; omega
+  exact ⟨main, fun h => main ((relay_answer_sound _ v).1 _ h)⟩
+
+/-- **pick_without_snapshot_fails.** Without a current snapshot no validator can be picked (and by
+`failed_request_enqueues_nothing` the request enqueues nothing). -/
+theorem pick_without_snapshot_fails (env : Env) (mev : Bool) (ts : Nat) (h : env.snapshot = none) :
+    pick env mev ts = none := by
+  unfold pick
+  simp [h]
+
+/-- **offered_only_if_all_histories** (clause 2, all five "only" conditions, stated on the message itself in
+any reachable state).  If the relay query answers validator `v` with the id of the queued message `it`,
+then `it` is assigned to `v`; its gas estimate is elected if one is required; it has neither a delivery nor
+an error report; no validator-set update in the queue is older than it; and no older unreported message in
+the queue has the same non-empty sender. -/
+theorem offered_only_if_all_histories (ops : List Op) (v : Nat) (it : Item) (hit : it ∈ (run ops).queue)
+    (hoff : it.id ∈ offeredPage (run ops).queue v) :
+    it.assignee = v ∧ (it.reqEst = true → it.elected > 0) ∧ it.pub = false ∧ it.err = false ∧
+      (∀ j ∈ (run ops).queue, j.kind = .valset → it.id ≤ j.id) ∧
+      (∀ j ∈ (run ops).queue, j.id < it.id → j.pub = false → j.err = false → it.sender ≠ 0 → j.sender ≠ it.sender) := by
+  have hoff' := (relay_answer_sound _ v).1 _ hoff
+  obtain ⟨pre, it', post, hq, hid, _, hpub, herr, hel, ha, _⟩ := (offered_iff _ v it.id).mp hoff'
+  have hmem : it' ∈ (run ops).queue := by rw [hq]; simp
+  have e : it' = it := uniq_id (invariant_all_histories ops).2.2 hmem hit hid
+  subst e
+  refine ⟨ha, hel, hpub, herr, relay_never_ahead_of_valset_update_all_histories ops v _ hoff, ?_⟩
+  intro j hj hlt hp he hs heq
+  exact (one_per_sender_all_histories ops v j it' hj hit hlt hp he hs heq).2 hoff
+
+/-- **elected_and_fees_written_only_by_endBlock** (clause 3, frame).  No operation other than the end-block
+step changes the elected estimate or the attached fees of a queued message; and the end-block step changes
+them only by `electOne` under the current environment and snapshot. -/
+theorem elected_and_fees_written_only_by_endBlock (ops : List Op) (op : Op) (it it' : Item)
+    (hit : it ∈ (run ops).queue) (hit' : it' ∈ (apply (run ops) op).queue) (hid : it'.id = it.id) :
+    (it'.elected = it.elected ∧ it'.fees = it.fees) ∨
+      (op = .endBlock ∧ ∃ snap, (run ops).env.snapshot = some snap ∧ it' = electOne (run ops).env snap it) := by
+  rcases step_full (run ops) (invariant_all_histories ops) op it it' hit hit' hid with rfl | hs | ⟨_, _, _, _, _, _, _, _, _, rfl⟩ | ⟨snap, hop, hsnap, h⟩
+  · exact Or.inl ⟨rfl, rfl⟩
+  · exact Or.inl ⟨hs.2.1, hs.2.2.1⟩
+  · exact Or.inl ⟨rfl, rfl⟩
+  · exact Or.inr ⟨hop, snap, hsnap, h⟩
+
+/-- **fees_provenance** (clause 3 over whole histories).  For every message in the queue after ANY
+history (`FeeProv`): either no estimate is elected and no fees are attached; or gas estimation is required
+for it, its elected estimate `g` is non-zero, and the history contains an end-block step
+(`pre ++ endBlock :: post`) at which the message — then without elected estimate — reached quorum on `g`
+among the estimates it then held under the snapshot of `run pre`, and
+* for a fee-paying message the attached fees are exactly what `GetCombinedFeesForRelay` +
+  `calculateFeesForEstimate` (`feesFor`) computed from `g`, the ASSIGNEE's multiplier and the
+  treasury rates of the environment of `run pre`;
+* for the other kinds no fees are attached.
+Nothing else ever writes these fields, and they are written once. -/
+theorem fees_provenance (ops : List Op) :
+    ∀ it ∈ (run ops).queue, FeeProv ops it.id it.kind it.assignee it.reqEst it.elected it.fees := by
+  induction ops using snoc_induction with
+  | h0 => intro it hit; simp [run] at hit
+  | hs ops op ih =>
+    intro it' hit'
+    rw [run_snoc] at hit'
+    rcases step_new (run ops) op it' hit' with ⟨it, hit, hid⟩ | ⟨_, sd, hnew, _⟩
+    · have hprev := feeProv_extend op (ih it hit)
+      rcases step_full (run ops) (invariant_all_histories ops) op it it' hit hit' hid.symm with rfl | hs | ⟨_, _, _, _, _, _, _, _, _, rfl⟩ | ⟨snap, hop, hsnap, rfl⟩
+      · exact hprev
+      · obtain ⟨⟨h1, h2, _, _, h5, _, h7⟩, h8, h9, _⟩ := hs
+        rw [h1, h2, h5, h7, h8, h9]; exact hprev
+      · exact hprev
+      · rcases electOne_spec (run ops).env snap it with he | ⟨hreq, h0, g, hv, hg, ⟨hk, f, hf, he⟩ | ⟨hk, he⟩⟩
+        · rw [he]; exact hprev
+        · rw [he]
+          exact Or.inr ⟨hreq, hg, ops, [], it, snap, by rw [hop], hit, rfl, h0, hsnap, hv, Or.inl ⟨hk, f, rfl, hf⟩⟩
+        · rw [he]
+          have hnone : it.fees = none := by
+            rcases ih it hit with ⟨_, h⟩ | ⟨_, h, _⟩
+            · exact h
+            · exact absurd h0 h
+          exact Or.inr ⟨hreq, hg, ops, [], it, snap, by rw [hop], hit, rfl, h0, hsnap, hv, Or.inr ⟨hk, hnone⟩⟩
+    · rw [hnew]
+      exact Or.inl ⟨rfl, rfl⟩
+
+/-- **attached_fees_are_ceil** (clause 3, complete, over whole histories).  Whenever a queued message carries
+fees `(r, cf, sf)` — in the state reached by any history — there is an end-block step in the history at
+which they were computed: with `m` the positive relayer multiplier on record for the message's ASSIGNEE,
+`c`, `s` the positive community / security rates (18-decimal fixed point) of the environment at that
+step, and `g` the message's elected (non-zero, quorum-backed) gas estimate:
+`r = ⌈m·g⌉`, `cf = ⌈c·r⌉`, `sf = ⌈s·r⌉` (as exact two-sided bounds), everything fits `uint64`.
+The message is fee-paying. -/
+theorem attached_fees_are_ceil (ops : List Op) (it : Item) (hit : it ∈ (run ops).queue) (r cf sf : Nat)
+    (hf : it.fees = some (r, cf, sf)) :
+    it.kind.feePayer = true ∧ it.elected ≠ 0 ∧
+    ∃ pre post m, ops = pre ++ Op.endBlock :: post ∧
+      assoc? (run pre).env.fees it.assignee = some m ∧ 0 < m ∧
+      0 < (run pre).env.community ∧ 0 < (run pre).env.security ∧
+      P * ((r : Int) - 1) < m * it.elected ∧ m * it.elected ≤ P * r ∧
+      P * ((cf : Int) - 1) < (run pre).env.community * r ∧ (run pre).env.community * r ≤ P * cf ∧
+      P * ((sf : Int) - 1) < (run pre).env.security * r ∧ (run pre).env.security * r ≤ P * sf ∧
+      r < U64 ∧ cf < U64 ∧ sf < U64 := by
+  rcases fees_provenance ops it hit with ⟨_, h⟩ | ⟨_, hg, pre, post, it0, snap, he, _, _, _, _, _, ⟨hk, f, hff, hfor⟩ | ⟨_, h⟩⟩
+  · rw [h] at hf; cases hf
+  · rw [hf] at hff
+    injection hff with hff
+    subst hff
+    obtain ⟨m, hm, hm0, hc0, hs0, hcalc⟩ := feesFor_spec hfor
+    obtain ⟨a1, a2, a3, a4, a5, a6, a7, a8, a9, a10, a11, a12⟩ := fees_formula _ _ _ _ _ _ _ hcalc
+    exact ⟨hk, hg, pre, post, m, he, hm, by omega, by omega, by omega, a4, a5, a6, a7, a8, a9, a10, a11, a12⟩
+  · rw [h] at hf; cases hf
+
+/-- **offered_fee_payer_carries_ceil_fees** (clauses 2 + 3 together).  A fee-paying message that requires gas
+estimation (every message that enters through `enqueue` does) is offered for relay — in any reachable
+state — only to its assignee and only with fees attached (the ceil fees of `attached_fees_are_ceil`). -/
+theorem offered_fee_payer_carries_ceil_fees (ops : List Op) (v : Nat) (it : Item) (hit : it ∈ (run ops).queue)
+    (hoff : it.id ∈ offered (run ops).queue v) (hk : it.kind.feePayer = true) (hreq : it.reqEst = true) :
+    it.assignee = v ∧ ∃ f, it.fees = some f := by
+  obtain ⟨pre, it', post, hq, hid, _, _, _, hel, ha, _⟩ := (offered_iff _ v it.id).mp hoff
+  have hmem : it' ∈ (run ops).queue := by rw [hq]; simp
+  have e : it' = it := uniq_id (invariant_all_histories ops).2.2 hmem hit hid
+  subst e
+  have hpos := hel hreq
+  rcases fees_provenance ops it' hit with ⟨h0, _⟩ | ⟨_, _, _, _, _, _, _, _, _, _, _, _, ⟨_, f, hf, _⟩ | ⟨hk', _⟩⟩
+  · omega
+  · exact ⟨ha, f, hf⟩
+  · rw [hk] at hk'; cases hk'
+
 /-! ### non-vacuity -/
 
 def demoEnv : Env :=
@@ -836,5 +1215,56 @@ def demoDeep : List Op :=
 
 example : offeredPage (run demoDeep).queue 1 = [] ∧ offeredPage (run demoDeep).queue 2 = [1, 4] ∧
     offeredPage (run (demoDeep ++ [.remove 4])).queue 1 = [5] := by decide
+
+/-! ### non-vacuity over histories (everything through `run` from the initial state) -/
+
+/-- two logic calls of sender 9 enter through the relayer pick (the second demands MEV), message 1 gets
+three estimates, the end-block step elects 21000 and attaches validator 1's fees -/
+def demoHist : List Op :=
+  [ .setEnv demoEnv, .enqueue .slc 7 9 false 0, .enqueue .slc 8 9 true 0,
+    .addEstimate 1 1 21000, .addEstimate 1 2 21000, .addEstimate 1 3 21001, .endBlock ]
+
+example : ((run demoHist).queue.map fun it => (it.id, it.assignee, it.remote)) = [(1, 1, 4), (2, 2, 8)] ∧
+    ((run demoHist).queue.map fun it => (it.elected, it.fees)) = [(21000, some (23100, 693, 231)), (0, none)] ∧
+    (run demoHist).queue.all (·.reqEst) = true := by decide
+-- message 1 is offered to its assignee only; message 2 (same sender, older one unreported) to nobody — not even
+-- after its own estimate is elected (fees under validator 2's multiplier 1.5) — until message 1 is reported
+example : offered (run demoHist).queue 1 = [1] ∧ offered (run demoHist).queue 2 = [] := by decide
+example : ((run (demoHist ++ [.addEstimate 2 1 20000, .addEstimate 2 2 20000, .endBlock])).queue.map
+      fun it => (it.id, it.elected, it.fees)) = [(1, 21000, some (23100, 693, 231)), (2, 20000, some (30000, 900, 300))] ∧
+    offered (run (demoHist ++ [.addEstimate 2 1 20000, .addEstimate 2 2 20000, .endBlock])).queue 2 = [] ∧
+    offered (run (demoHist ++ [.addEstimate 2 1 20000, .addEstimate 2 2 20000, .endBlock, .setPublic 1])).queue 2 = [2] := by decide
+-- before the election nothing is offered; estimates after the election and a later change of the fee table do not touch the fees
+example : offered (run (demoHist.take 6)).queue 1 = [] ∧
+    ((run (demoHist ++ [.setEnv { demoEnv with fees := [(1, 5 * P)] }, .addEstimate 1 9 5, .endBlock])).queue.map
+      fun it => (it.elected, it.fees)) = [(21000, some (23100, 693, 231)), (0, none)] := by decide
+-- a request nobody qualifies for (MEV demanded, the only MEV relayer has no fee record) fails and changes nothing
+example : (run [.setEnv { demoEnv with fees := [(1, P)] }, .enqueue .slc 7 9 true 0]).queue = [] ∧
+    (run [.setEnv { demoEnv with fees := [(1, P)] }, .enqueue .slc 7 9 true 0]).nextId = 0 ∧
+    (run [.enqueue .slc 7 9 false 0]).queue = [] := by decide
+
+-- `demoHist` never uses the keeper-level `put`: `every_message_assigned_by_pick` applies to it
+example : ∀ o ∈ demoHist, ∀ k c sd a r q, o ≠ Op.put k c sd a r q := by
+  intro o ho k c sd a r q h
+  subst h
+  simp [demoHist] at ho
+
+/-- **zeroFee** (recorded observation, not a violation of a clause).  A fee record with multiplier 0 counts as
+"a relayer fee on record" for the pick (`buildValidatorsInfos` only asks for a record, `MsgSetRelayerFee`
+refuses negative values only), but `GetCombinedFeesForRelay` refuses a zero multiplier: the message assigned
+to such a relayer never gets its estimate elected, so it is never offered. -/
+def zeroFee : List Op :=
+  [ .setEnv { demoEnv with fees := [(1, 0)] }, .enqueue .slc 7 9 false 0,
+    .addEstimate 1 1 21000, .addEstimate 1 2 21000, .addEstimate 1 3 21000, .endBlock ]
+
+example : ((run zeroFee).queue.map fun it => (it.assignee, it.elected, it.fees)) = [(1, 0, none)] ∧
+    offered (run zeroFee).queue 1 = [] := by decide
+
+/-- **SCOPE witness** for `queued_message_assignment`: the keeper-level `put` stores whatever assignee its
+caller passes — here validator 99, who is in no snapshot and has no records — and the message is offered
+to it.  In /repo every producer of a relayed message obtains the assignee from the pick (`enqueue`). -/
+example : offered (run [.put .slc 7 1 99 4 false]).queue 99 = [1] := by decide
+-- only fee-paying actions have a sender: whatever the caller passes for a validator-set update is dropped
+example : ((run [.put .valset 7 5 2 8 false, .put .other 7 5 2 8 false, .put .uusc 7 5 2 8 false]).queue.map (·.sender)) = [0, 0, 5] := by decide
 
 end Paloma.Queue
